@@ -55,11 +55,17 @@ def expectations(seq):
     return out
 
 
-def judge(acc, seq, payload, compact=False):
-    text = T.render_compact(seq) if compact else T.render(seq)
+def lexically_damaged(seq):
+    return any(t[0] in ("BADQ", "BADU", "BADC") for t in seq)
+
+
+def judge(acc, seq, payload, compact=False, lines=False):
+    text = T.render_lines(seq) if lines else T.render_compact(seq) if compact else T.render(seq)
     ver = expectations(seq)
     if compact:
         payload = dict(payload, compact=True)
+    if lines:
+        payload = dict(payload, lines=True)
     acc.traces += 1
     order = loaders.dialect_order(text)
     only = payload.get("only_dialect")
@@ -128,7 +134,11 @@ def shard_seq(spec):
     alpha, n, prefix = spec
     acc = Acc()
     for tup in itertools.product(alpha, repeat=n - len(prefix)):
-        judge(acc, list(prefix) + list(tup), {"kind": "sequence"})
+        seq = list(prefix) + list(tup)
+        judge(acc, seq, {"kind": "sequence"})
+        if lexically_damaged(seq):
+            # what an unterminated lexeme swallows depends on how the text ends
+            judge(acc, seq, {"kind": "sequence"}, lines=True)
     acc.sample({"tokens": T.render(list(prefix)), "length": n}, cap=1)
     return acc
 
@@ -137,12 +147,14 @@ def shard_damage(spec):
     di, depth, lo, hi = spec
     base = docs()[di]
     acc = Acc()
-    first = T.damage(base, T.ALPHABET21)
+    first = T.damage(base, T.ALPHABET23)
     for j, (kind, i, seq) in enumerate(first):
         if not (lo <= j < hi):
             continue
         judge(acc, seq, {"kind": "damage", "doc": di, "damage": [[kind, i]]})
         judge(acc, seq, {"kind": "damage", "doc": di, "damage": [[kind, i]]}, compact=True)
+        if lexically_damaged(seq):
+            judge(acc, seq, {"kind": "damage", "doc": di, "damage": [[kind, i]]}, lines=True)
         if depth >= 2:
             for kind2, i2, seq2 in T.damage(seq, T.ALPHABET11):
                 if kind2 == "rep" and abs(i2 - i) > 3:
@@ -189,7 +201,7 @@ def run(ctx):
     acc = Acc()
     q = ctx.quick
     k = 4 if q else 5
-    A18 = T.ALPHABET21
+    A18 = T.ALPHABET23
     specs = []
     for n in range(1, k + 1):
         if n <= 2:
@@ -214,9 +226,9 @@ def run(ctx):
         "evaluations": acc.n, "distinct_nontrivial": acc.nontrivial,
         "states": len({(a, b) for a, b, _ in edges}), "transitions": len(edges),
         "traces_validated_against_impl": acc.traces,
-        "rule": "all token sequences of length <= %d over the 21-token alphabet (18 well-formed tokens + an unterminated quoted string + an unterminated units expression + BEGIN_GROUP, which is a plain name under the ISIS grammar) and of length %d over a 12-token "
+        "rule": "all token sequences of length <= %d over the 23-token alphabet (18 well-formed tokens + an unterminated quoted string, one ending in the other quote character, an unterminated units expression, an unterminated comment + BEGIN_GROUP, which is a plain name under the ISIS grammar) and of length %d over a 12-token "
                 "core, plus %d reference documents x all single%s token damages (delete, duplicate, swap, "
-                "replace by any alphabet token, truncate); each rendered with single spaces and run on 5 loaders; "
+                "replace by any alphabet token, truncate); each rendered with single spaces (lexically damaged ones also one token per line with a final line end; damaged documents also without optional white space) and run on 5 loaders; "
                 "states = distinct reference verdicts (class, diagnosis), transitions = (verdict, loader) pairs "
                 "exercised, traces = sequences replayed on the implementation; non-trivial = the reference "
                 "grammar gave a definite verdict and the loader's result was compared with it"
@@ -235,7 +247,7 @@ def run(ctx):
 
 
 def _seq_from(case):
-    by_text = {t[1]: t for t in T.ALPHABET21}
+    by_text = {t[1]: t for t in T.ALPHABET23}
     return [by_text[x] for x in case["tokens"]]
 
 
@@ -249,8 +261,8 @@ def replay(case):
         return []
     seq = _seq_from(case)
     keep = loaders.impl.DIALECTS
-    judge(acc, seq, {k: v for k, v in case.items() if k not in ("tokens", "dialect", "compact")},
-          compact=bool(case.get("compact")))
+    judge(acc, seq, {k: v for k, v in case.items() if k not in ("tokens", "dialect", "compact", "lines")},
+          compact=bool(case.get("compact")), lines=bool(case.get("lines")))
     return [v for v in acc.violations if v["case"]["dialect"] == case["dialect"]]
 
 
